@@ -4,6 +4,7 @@ import PharmpyModel.C20.Cov
 import PharmpyModel.C20.Results
 import PharmpyModel.C20.Json
 import PharmpyModel.C20.Lst
+import PharmpyModel.C20.IterDf
 open Pharmpy Pharmpy.C20 Pharmpy.C20.Spec
 
 def bad : Sexp := .list [.atom "err", .atom "bad-op"]
@@ -124,8 +125,28 @@ def sRun (r : RunResult) : Sexp :=
       | .aborted => .atom "aborted"
       | .ok a b => .list [.atom "ok", sRow a, sRow b])]
 
+def inRow? : Sexp → Option Pharmpy.C20.IterDf.InRow
+  | .list [i, .atom "nan"] => do some ⟨← i.asInt?, none⟩
+  | .list [i, o] => do some ⟨← i.asInt?, some (← o.asInt?)⟩
+  | _ => none
+
+def objS : Pharmpy.C20.IterDf.Obj → Sexp
+  | none => .atom "nan"
+  | some v => Sexp.ofInt v
+
 def handle (req : Sexp) : Sexp :=
   match req with
+  | .list [.atom "iterdf", .list rs] =>
+    match rs.mapM inRow? with
+    | some rows =>
+      let out : Sexp := match Pharmpy.C20.IterDf.getIterDf rows with
+        | .indexError => .atom "IndexError"
+        | .ok o => .list (o.map (fun r => .list [Sexp.ofInt r.iter, (match r.src with | some k => Sexp.ofNat k | none => .atom "nan")]))
+      let fin : Sexp := match Pharmpy.C20.IterDf.reportedFinalOfv rows with
+        | none => .atom "IndexError"
+        | some o => objS o
+      .list [out, fin]
+    | none => bad
   | .list [.atom "file", k, nt, nl, .list ls] =>
     match kind? k, bool? nt, bool? nl, ls.mapM str? with
     | some k, some nt, some nl, some ls =>
